@@ -111,6 +111,7 @@ func checkC16(c *Ctx) {
 	r.Rule("R16.3", "no whole-struct read of a struct with an ATOMIC field while atomic writers exist", 1)
 	r.Rule("R16.5", "key-lock values: written by the owner before release only", 2)
 	r.Rule("R16.6", "every struct field of the package is classified", 1)
+	r.Rule("R16.8", "no spawned goroutine reads the caller's key slice (obligations of C04 R04.4)", 2)
 	r.Rule("R16.7", "constructors initialise everything the background goroutines read before starting them", 3)
 	r.NotDecided = []string{"races inside user code and the standard library", "fields of USER class (Invalidator.Callbacks, HTTPTransfer.*, gob registry globals: registration-time)",
 		"goroutine start vs. later constructor writes (constructors publish fields the goroutines read before starting them: read by hand)"}
@@ -123,6 +124,15 @@ func checkC16(c *Ctx) {
 	c.c16PublishBeforeStart()
 	// deep guard of the label index
 	c.withAlias(map[string]string{"R15.1": "R16.1"}, func() { c.c15Guarded() })
+	// R16.8: memory owned by the caller (the key slice) is not read by a goroutine that outlives the call: after Get returned the
+	// caller may write to it, concurrently with that goroutine (obligations of C04 R04.4)
+	c.borrow("C04", func() {
+		for _, sib := range siblings {
+			if fo := c.failover(sib); fo.Err == nil {
+				c.c04Sibling(fo)
+			}
+		}
+	}, func(o *coreObl) (string, bool) { return "R16.8", o.Rule == "R04.4" })
 }
 
 func ownerOf(f *types.Var, pkg *types.Package) string {
